@@ -112,6 +112,9 @@ func fsDone(t *Thread, name string, res string, mutated bool, paths []string, er
 	}
 }
 
+// ReadFault, when set, may make a successful FSReadFile fail instead (injected I/O error).
+var ReadFault func(path string) error
+
 // CrashHook, when set, sees the disk at every crash point (after every FS mutation).
 var CrashHook func(tree map[string]string, after string)
 
@@ -284,6 +287,12 @@ func FSReadFile(p string) ([]byte, error) {
 	}
 	t := fsOp("read", rd(p))
 	d, err := ioutil.ReadFile(p)
+	if ReadFault != nil && err == nil {
+		// environment deviation decided by the harness (a read of an existing file that fails)
+		if ferr := ReadFault(p); ferr != nil {
+			d, err = nil, ferr
+		}
+	}
 	res := ""
 	if HistHash {
 		res = fmt.Sprintf("%v %x", err == nil, sha1.Sum(d))
